@@ -3,10 +3,21 @@ CANON = True
 
 import ast
 
-from .. import pyq, readerq
+from .. import core, pyq, readerq
 from ..pysrc import dotted, norm, flat
 from ..readerq import HR, RD
 from .c40 import check_cont
+
+STRICT = {"EOF-SENTINEL", "PEOI-GUARD", "PEOI-PASS", "SRC-RESET", "REPL-CONT"}
+
+# per-source state of Reader (confirmed by reading getc/peekc/saving_chars): what each holds
+RESET_ATTRS = {
+    "_peek_chars": "characters read ahead but not consumed",
+    "_saved_chars": "the stack of saving_chars() buffers",
+    "_pos": "line and column of the last consumed character",
+    "_eof_tracker": "position of the last non-space character",
+    "_stream": "the text stream itself",
+}
 
 EOF_OK_CALLERS = {
     ("line_comment", "chars"): "a comment may end at the end of input",
@@ -57,7 +68,7 @@ def check_peoi_guard(ctx, rq):
                 ok = True
             ctx.check(ok, "PEOI-GUARD", key, f"PrematureEndOfInput is raised under `{t}`, which is also true for characters that are not the end of input: complete but invalid text is reported as incomplete",
                       m.rel, r.lineno, witness="`# x` (hash, space, text): the REPL prompts for more input for ever", detail=why)
-    ctx.require(n_raise >= 4, f"only {n_raise} PrematureEndOfInput raise sites found")
+    ctx.need(n_raise >= 4, f"only {n_raise} PrematureEndOfInput raise sites found")
 
 
 
@@ -70,6 +81,7 @@ def check(ctx, src):
     ctx.rule("SRC-RESET", "every new source resets the reader's look-ahead and position state")
     rq = readerq.Reader(src)
     hr, rd = rq.hr, rq.rd
+    eof_safe = _eof_safe_methods(rq)
     n_sites = 0
     for q, f in hr.funcs.items():
         if not q.startswith("HyReader."):
@@ -85,7 +97,7 @@ def check(ctx, src):
 
             def marker(n):
                 if isinstance(n, ast.Call) and isinstance(n.func, ast.Attribute) and dotted(n.func.value) == "self":
-                    if n.func.attr in ("parse_one_form", "read_fcomponents_until", "read_chars_until", "getn", "read_string_until") :
+                    if n.func.attr in eof_safe:
                         return True
                     if n.func.attr == "chars" and not any(k.arg == "eof_ok" for k in n.keywords) and not n.args:
                         return True
@@ -94,7 +106,22 @@ def check(ctx, src):
             if isinstance(p, ast.Assign) and isinstance(p.targets[0], ast.Name):
                 v = p.targets[0].id
                 test = next((s for s in after if isinstance(s, ast.If) and norm(s.test) == f"not {v}"), None)
-                if test is not None and _raises_peoi(test.body):
+                early = None
+                for s2 in after:
+                    if s2 is test or any(marker(x) for x in ast.walk(s2)):
+                        break
+                    if isinstance(s2, ast.If) and any(isinstance(x, ast.Name) and x.id == v for x in ast.walk(s2.test)) and _raises_other_lex(s2.body):
+                        early = s2
+                        break
+                idx0 = pyq.top_stmt_index(f, c)
+                dominated = idx0 is not None and any(isinstance(s3, ast.If) and "self.peekc()" in norm(s3.test) and _raises_peoi(s3.body) and _truth_at_eof(s3.test, next((x for x in ast.walk(s3.test) if _is_sentinel_call(x)), None)) is True
+                                                     for s3 in f.body[:idx0])
+                if dominated:
+                    ctx.ok("EOF-SENTINEL", key, "dominated by an end-of-input test on peekc() at the start of the function")
+                elif early is not None:
+                    ctx.bad("EOF-SENTINEL", key, f"`{v}` holds a getc()/peekc() value ('' at the end of input) and is tested by `{norm(early.test)}`, whose failing arm raises a plain LexException, before any end-of-input test",
+                            HR, early.lineno, witness="cut the input right after this read: LexException instead of PrematureEndOfInput")
+                elif test is not None and _raises_peoi(test.body):
                     ctx.ok("EOF-SENTINEL", key, f"`if not {v}: raise PrematureEndOfInput`")
                 elif readerq.must_pass(after, lambda n: marker(n) or (isinstance(n, ast.If) and norm(n.test).startswith("not ") and _raises_peoi(n.body))):
                     ctx.ok("EOF-SENTINEL", key, "every path continues into a read that raises PrematureEndOfInput at the end of input")
@@ -132,7 +159,7 @@ def check(ctx, src):
                 ctx.check(dom, "EOF-SENTINEL", key, "a sentinel read used as a fallback value is not dominated by an end-of-input test", HR, c.lineno, detail="dominated by `if not peekc…: raise PrematureEndOfInput`")
             else:
                 ctx.unres("EOF-SENTINEL", key, f"use in {type(p).__name__}")
-    ctx.require(n_sites >= 5, f"only {n_sites} sentinel reads found in hy_reader.py (5 confirmed by hand)")
+    ctx.need(n_sites >= 5, f"only {n_sites} sentinel reads found in hy_reader.py (5 confirmed by hand)")
 
     check_peoi_guard(ctx, rq)
 
@@ -144,7 +171,7 @@ def check(ctx, src):
                 q = m.qual_of(c).split(".")[-1]
                 key = f"{m.rel}|{q}|{norm(c)}"
                 if eof_ok:
-                    ctx.check((q, c.func.attr) in EOF_OK_CALLERS, "EOF-OK", key, f"`{q}` reads with eof_ok=True: a construct cut off by the end of input ends silently instead of raising PrematureEndOfInput",
+                    ctx.decide("EOF-OK", key, (q, c.func.attr) in EOF_OK_CALLERS, f"`{q}` reads with eof_ok=True: a construct cut off by the end of input ends silently instead of raising PrematureEndOfInput",
                               m.rel, c.lineno, witness="cut the input inside this construct", detail=EOF_OK_CALLERS.get((q, c.func.attr), ""))
                 else:
                     ctx.ok("EOF-OK", key, "default eof_ok=False: raises PrematureEndOfInput when the input ends")
@@ -155,22 +182,72 @@ def check(ctx, src):
                   RD, f.lineno, witness="(foo  reads as if it were complete", detail="if not c and not eof_ok: raise")
         d = f.args.defaults
         ctx.check(len(d) == 1 and getattr(d[0], "value", None) is False, "EOF-OK", f"{RD}|Reader.{name}|default", f"the default of eof_ok in Reader.{name} is not False", RD, f.lineno, detail="eof_ok=False")
-    # --- pass-through
-    m, tp = rq.methods["try_parse_one_form"]
-    tr = next((n for n in ast.walk(tp) if isinstance(n, ast.Try)), None)
-    ctx.require(tr is not None, "try_parse_one_form: try not found")
-    hs = [norm(h.type) if h.type is not None else "<bare>" for h in tr.handlers]
-    ok = hs[:1] == ["LexException"] and len(tr.handlers[0].body) == 1 and isinstance(tr.handlers[0].body[0], ast.Raise) and tr.handlers[0].body[0].exc is None
-    ctx.check(ok, "PEOI-PASS", f"{HR}|HyReader.try_parse_one_form|LexException first", f"handlers are {hs}: LexException must be re-raised unchanged before the catch-all, or PrematureEndOfInput is converted to a plain LexException",
-              HR, tr.lineno, witness="(foo  raises LexException; the REPL reports an error instead of prompting", detail=str(hs))
+    # --- pass-through: decided by C18's analysis of the converting try (which handler a LexException reaches first)
+    from . import c18
+
+    core.transfer(ctx, src, c18, {"FUNNEL-TRY"}, key_filter=lambda k: k.endswith("|handlers"), rename={"FUNNEL-TRY": "PEOI-PASS"})
     check_cont(ctx, src)
-    # --- source reset
+    # --- source reset: the per-source state (frozen list, confirmed by reading) must be assigned by _set_source
     m, ss = rq.methods["_set_source"]
-    t = flat(ss)
-    for piece in ("self._peek_chars = deque()", "self._saved_chars = []", "self._pos = (1, 0)", "self._eof_tracker = self._pos", "self._stream = stream"):
-        ctx.check(piece in t, "SRC-RESET", f"{RD}|Reader._set_source|{piece}", f"_set_source no longer executes `{piece}` for a new stream: look-ahead left by an aborted read leaks into the next source read with the same reader",
-                  RD, ss.lineno, witness="REPL: after `(setv xs #` fails, the next truncated input reads as complete (or a valid one fails)", detail="reset per source")
+    assigned = set()
+    todo, seen = [ss], set()
+    while todo:
+        fn = todo.pop()
+        if id(fn) in seen:
+            continue
+        seen.add(id(fn))
+        for n in ast.walk(fn):
+            if isinstance(n, ast.Assign):
+                for t in n.targets:
+                    for e in (t.elts if isinstance(t, (ast.Tuple, ast.List)) else [t]):
+                        if isinstance(e, ast.Attribute) and dotted(e.value) == "self":
+                            assigned.add(e.attr)
+        for c in rq.calls_of(fn):
+            if c in rq.methods:
+                todo.append(rq.methods[c][1])
+    cls = rd.classes.get("Reader")
+    for attr, why in RESET_ATTRS.items():
+        used = [n for n in ast.walk(cls) if isinstance(n, ast.Attribute) and n.attr == attr and dotted(n.value) == "self" and rd.enclosing_func(n) is not ss] if cls is not None else []
+        verdict = True if attr in assigned else (False if used else None)
+        ctx.decide("SRC-RESET", f"{RD}|Reader._set_source|self.{attr}", verdict, f"_set_source no longer resets `self.{attr}` ({why}) for a new stream although the character primitives still use it: "
+                   "state left by an aborted read leaks into the next source read with the same reader", RD, ss.lineno,
+                   witness="REPL: after `(setv xs #` fails, the next truncated input reads as complete (or a valid one fails)", detail="assigned per source")
     ctx.floor("EOF-OK", 8)
+
+
+def _eof_safe_methods(rq):
+    """Methods of the reader that, called at the end of input, raise PrematureEndOfInput on every path (summary,
+    computed to a fixpoint): they iterate chars()/peeking() without eof_ok, or test a getc()/peekc() value for
+    emptiness and raise, or start by calling another such method."""
+    safe = set()
+
+    def direct(n):
+        if isinstance(n, ast.Call) and isinstance(n.func, ast.Attribute) and dotted(n.func.value) == "self":
+            if n.func.attr in safe:
+                return True
+            if n.func.attr in ("chars", "peeking") and not any(k.arg == "eof_ok" for k in n.keywords) and not n.args:
+                return True
+        if isinstance(n, ast.If) and _raises_peoi(n.body):
+            t = n.test
+            if isinstance(t, ast.UnaryOp) and isinstance(t.op, ast.Not):
+                o = t.operand
+                if _is_sentinel_call(o):
+                    return True
+                if isinstance(o, ast.Name):
+                    return True  # `if not c: raise PrematureEndOfInput` (c's origin is judged by PEOI-GUARD)
+        return False
+
+    changed = True
+    while changed:
+        changed = False
+        for name, (m, f) in rq.methods.items():
+            if name in safe or name in ("chars", "peeking", "getc", "peekc"):
+                continue
+            body = [s for s in f.body if not (isinstance(s, ast.Expr) and isinstance(s.value, ast.Constant))]
+            if readerq.must_pass(body, direct):
+                safe.add(name)
+                changed = True
+    return safe
 
 
 def _guard_of(call):
